@@ -18,6 +18,9 @@ pub struct DynDbSetRef<T>(Arc<dyn DbCollection<Item = T>>);
 
 pub struct Store {
     collections: ShareLock<HashMap<StoreIden, Arc<dyn Any + Send + Sync + 'static>>>,
+    // the status of a message is changed by reading its row and writing it back; the tick, the
+    // acks and the actions of the clients do that from different threads
+    message_status: std::sync::Mutex<()>,
 }
 
 impl Default for Store {
@@ -30,7 +33,14 @@ impl Store {
     pub fn new() -> Self {
         Self {
             collections: Arc::new(RwLock::new(HashMap::new())),
+            message_status: std::sync::Mutex::new(()),
         }
+    }
+
+    pub(crate) fn message_status_guard(&self) -> std::sync::MutexGuard<'_, ()> {
+        self.message_status
+            .lock()
+            .unwrap_or_else(|err| err.into_inner())
     }
 
     pub fn collection<DATA>(&self) -> Arc<dyn DbCollection<Item = DATA>>
